@@ -277,6 +277,8 @@ func replayC10(c *h.Ctx, cs h.Case) {
 	checkFilter(c, k)
 }
 
+var docPrefixHeads = []string{"-", "+"}
+
 func runC10(c *h.Ctx) {
 	r := c.Rand("c10")
 	g := &gen.G{R: r, C: gen.DefaultCfg()}
@@ -313,6 +315,15 @@ func runC10(c *h.Ctx) {
 		var cond2 *gen.N
 		if !lax && r.IntN(2) == 0 {
 			cond2 = g.Pred(1, true, false)
+		}
+		if r.IntN(12) == 0 && len(docPrefixHeads) > 0 {
+			// the filter applied to what a parenthesised expression yields:
+			// (-$.a[*]) ? (...), ($.a[*] + 0)... - every item reaches the filter
+			inner := &gen.N{K: gen.KRoot}
+			for j := 1 + r.IntN(2); j > 0; j-- {
+				inner.Append(g.Step(0, false, false))
+			}
+			prefix = &gen.N{K: gen.KUn, S: []string{"-", "+"}[r.IntN(2)], A: inner}
 		}
 		crossDoc := ""
 		if r.IntN(6) == 0 {
